@@ -62,6 +62,9 @@ def curated():
     # 12. read at end / length-0 reads on a linked-block element
     S.append(("lb-eof", [CREATE(16), HLCREATE(0, 0, 8, 2), WRITE(0, 5), SEEK(0, 0), READ(0, 5), SEEK(0, 3), READ(0, 9),
                          ENDACC(0), CLOSE(), OPEN(DFACC_READ), STARTACC(0, 0, 1), READ(0, 0), ENDACC(0), CLOSE()]))
+    # 13. read exactly at the end of a linked-block element whose last block is partly filled; read after seeking past the end
+    S.append(("lb-eof2", [CREATE(16), HLCREATE(0, 0, 8, 2), WRITE(0, 5), READ(0, 4), SEEK(0, 5), READ(0, 1), ENDACC(0), CLOSE()]))
+    S.append(("lb-seekpast", [CREATE(16), HLCREATE(0, 0, 4, 2), WRITE(0, 5), SEEK(0, 9), READ(0, 4), SEEK(0, 0), READ(0, 0), ENDACC(0), CLOSE()]))
     return S
 
 def random_skeleton(rng):
